@@ -107,3 +107,80 @@ Theorem C02_partitioned_nest_two_levels_partial : forall r r2 rx r1 r0 s2 s1 tms
             if andb (NestPart.consistent r1 r0 s1 p) (NestPart.consistent r2 rx s2 (NestPart.collapse rx r0 p))
             then Nest.body_den tms (NestPart.collapse r rx (NestPart.collapse rx r0 p)) else 0.
 Proof. exact NestPartProofs.partitioned_nest_sound_2. Qed.
+
+(* ---- the shape split of the loop-nest abstraction IS the runtime model's splitUniform (Proofs/NestRtBridge.v) ----
+   NestOcc.to_rt embeds the tries of the abstraction into the tries of the modelled runtime.  Under it, for ANY step and
+   ANY trie whose fibers at the split depth have strictly increasing, non-negative coordinates (NestRtBridge.fits /
+   fits_at; both are needed, see NestRtBridge.split_node_negative_differs / split_node_unsorted_differs):
+   NestPart.split_node / split_at d - the transformation the C02_partitioned_* theorems above are about - computes
+   exactly what Rt.split_uniform / Rt.tmap_depth d (Rt.split_uniform ..) - what Interp runs for splitUniform(depth=d) -
+   computes; Rt.merge1 / Rt.merge_levels 1 (mergeRanks(levels=1, "absolute"), the footer's call) maps the split image
+   back to the original; lookups in the runtime's result find at (.., bucket, c, ..) what the original holds at (.., c, ..). *)
+Require TV.Model.NestOcc TV.Proofs.NestRtBridge.
+
+Theorem C02_bridge_split_node_is_split_uniform : forall s l, 0 < s -> NestRtBridge.fits l ->
+  Rt.split_uniform s 0 0 (NestOcc.to_rt (Nest.Node l)) = Some (NestOcc.to_rt (Nest.Node (NestPart.split_node s l))).
+Proof. exact NestRtBridge.split_node_is_split_uniform. Qed.
+
+(* the same under the weakest hypothesis the proof needs: buckets non-decreasing along the fiber, coordinates >= 0 *)
+Theorem C02_bridge_split_node_is_split_uniform_weak : forall s l, 0 < s -> NestRtBridge.fits_weak s l ->
+  Rt.split_uniform s 0 0 (NestOcc.to_rt (Nest.Node l)) = Some (NestOcc.to_rt (Nest.Node (NestPart.split_node s l))).
+Proof. exact NestRtBridge.split_node_is_split_uniform_weak. Qed.
+
+Theorem C02_bridge_split_at_is_tmap_split_uniform : forall d s t, 0 < s -> NestRtBridge.fits_at d t ->
+  Rt.tmap_depth d (Rt.split_uniform s 0 0) (NestOcc.to_rt t) = Some (NestOcc.to_rt (NestPart.split_at d s t)).
+Proof. exact NestRtBridge.split_at_is_tmap_split_uniform. Qed.
+
+Theorem C02_bridge_merge1_split_node : forall s l, 0 < s -> NestRtBridge.fits l ->
+  Rt.merge1 (NestOcc.to_rt (Nest.Node (NestPart.split_node s l))) = Some (NestOcc.to_rt (Nest.Node l)).
+Proof. exact NestRtBridge.merge1_split_node. Qed.
+
+Theorem C02_bridge_merge_levels_split_at : forall d s t, 0 < s -> NestRtBridge.fits_at d t ->
+  Rt.tmap_depth d (Rt.merge_levels 1) (NestOcc.to_rt (NestPart.split_at d s t)) = Some (NestOcc.to_rt t).
+Proof. exact NestRtBridge.merge_levels_split_at. Qed.
+
+(* mergeRanks of ANY embedded two-level trie (e.g. a partitioned output built by the loop nest, not by splitUniform)
+   whose lower fibers concatenated are strictly increasing is the concatenation; on split images that is the original *)
+Theorem C02_bridge_merge_node_is_merge1 : forall parts,
+  Forall (fun pt : Nest.coord * Nest.trie => exists l', snd pt = Nest.Node l') parts ->
+  StronglySorted Z.lt (Nest.keys (NestRtBridge.merge_node parts)) ->
+  Rt.merge1 (NestOcc.to_rt (Nest.Node parts)) = Some (NestOcc.to_rt (Nest.Node (NestRtBridge.merge_node parts))).
+Proof. exact NestRtBridge.merge_node_is_merge1. Qed.
+
+Theorem C02_bridge_merge_node_split_node : forall s l, NestRtBridge.fits_weak s l ->
+  NestRtBridge.merge_node (NestPart.split_node s l) = l.
+Proof. exact NestRtBridge.merge_node_split_node. Qed.
+
+(* lookups in whatever the runtime operation returns *)
+Theorem C02_bridge_split_uniform_lookup : forall d s t T' pre c post, 0 < s -> NestRtBridge.fits_at d t -> length pre = d ->
+  Rt.tmap_depth d (Rt.split_uniform s 0 0) (NestOcc.to_rt t) = Some T' ->
+  RtLaws.zl (pre ++ NestPart.bucket s c :: c :: post) T' = RtLaws.zl (pre ++ c :: post) (NestOcc.to_rt t) /\
+  forall u, u <> NestPart.bucket s c -> RtLaws.zl (pre ++ u :: c :: post) T' = None.
+Proof. exact NestRtBridge.split_uniform_lookup. Qed.
+
+(* the denotation used by the C02_partitioned_* theorems, read on the runtime's tries (rt_den: RtLaws.zl at the
+   coordinates of the point, 0 on a miss; NestRtBridge.den_rt: Nest.den rs t p = rt_den (map p rs) (to_rt t)) *)
+Theorem C02_bridge_den_is_rt_lookup : forall rs t p,
+  Nest.den rs t p = NestRtBridge.rt_den (map p rs) (NestOcc.to_rt t).
+Proof. exact NestRtBridge.den_rt. Qed.
+
+Theorem C02_bridge_den_split_uniform : forall d rs t p r r1 r0 s T', 0 < s -> NestRtBridge.fits_at d t ->
+  nth_error rs d = Some r -> NoDup rs ->
+  Rt.tmap_depth d (Rt.split_uniform s 0 0) (NestOcc.to_rt t) = Some T' ->
+  NestRtBridge.rt_den (map p (NestPart.split_ranks d r1 r0 rs)) T' =
+  if NestPart.consistent r1 r0 s p then NestRtBridge.rt_den (map (NestPart.collapse r r0 p) rs) (NestOcc.to_rt t) else 0.
+Proof. exact NestRtBridge.den_split_uniform. Qed.
+
+(* mergeRanks at depth d of ANY embedded trie whose fibers at depth d are mergeable (lower fibers are nodes, their
+   concatenation is strictly increasing): NestRtBridge.lift_at d merge_top concatenates the lower fibers there *)
+Theorem C02_bridge_merge_at_is_tmap_merge1 : forall d t, NestRtBridge.holds_at d NestRtBridge.mergeable t ->
+  Rt.tmap_depth d Rt.merge1 (NestOcc.to_rt t) = Some (NestOcc.to_rt (NestRtBridge.lift_at d NestRtBridge.merge_top t)).
+Proof. exact NestRtBridge.merge_at_is_tmap_merge1. Qed.
+
+(* a two-level stack on one rank (the tries of C02_partitioned_nest_two_levels_partial): splitUniform(s2, depth=d) then
+   splitUniform(s1, depth=d+1) of the runtime model compute split_at (S d) s1 (split_at d s2 t) *)
+Theorem C02_bridge_split_at_two_levels : forall d s2 s1 t, 0 < s2 -> 0 < s1 -> NestRtBridge.fits_at d t ->
+  exists T1, Rt.tmap_depth d (Rt.split_uniform s2 0 0) (NestOcc.to_rt t) = Some T1 /\
+             Rt.tmap_depth (S d) (Rt.split_uniform s1 0 0) T1 =
+             Some (NestOcc.to_rt (NestPart.split_at (S d) s1 (NestPart.split_at d s2 t))).
+Proof. exact NestRtBridge.split_at_2_is_tmap_split_uniform. Qed.
